@@ -117,9 +117,46 @@ class Ctx:
         except Exception as e:  # noqa: BLE001
             raise ToolError(f"harness {command} produced no JSON: {e}: {p.stdout[-500:]} {p.stderr[-500:]}")
 
+    CHUNK = 400_000
+
     def validate_trace(self, module, trace_path, name, constants, invariants=(), expect_accept=True,
                        timeout=900, overrides=None):
-        """TLC trace validation. Returns (accepted, rejected_at, result)."""
+        """TLC trace validation. Returns (accepted, rejected_at, result). TLC reads a trace file into memory as a
+        whole: files of the thorough tiers (millions of records) are validated in pieces cut at RESET records."""
+        try:
+            with open(trace_path, "rb") as f:
+                n_lines = sum(1 for _ in f)
+        except OSError:
+            n_lines = 0
+        if n_lines <= self.CHUNK:
+            return self._validate_one(module, trace_path, name, constants, invariants, timeout, overrides, n_lines)
+        last = (True, None, None)
+        part, count, k = None, 0, 0
+        paths = []
+        with open(trace_path) as f:
+            for line in f:
+                if '"l":"RESET"' in line.replace(" ", "")[:200] and (part is None or count >= self.CHUNK):
+                    if part:
+                        part.close()
+                    paths.append(f"{trace_path}.part{k}")
+                    part, count, k = open(paths[-1], "w"), 0, k + 1
+                part.write(line)
+                count += 1
+        part.close()
+        for k, pth in enumerate(paths):
+            with open(pth, "rb") as f:
+                n = sum(1 for _ in f)
+            last = self._validate_one(module, pth, f"{name}_part{k}", constants, invariants, timeout, overrides, n)
+            if not last[0]:
+                self._chunk_of = getattr(self, "_chunk_of", {})
+                self._chunk_of[trace_path] = pth
+                return last
+            os.remove(pth)
+        return last
+
+    def _validate_one(self, module, trace_path, name, constants, invariants, timeout, overrides, n_lines):
+        # budget by trace length (measured: 3-6 k records per second)
+        timeout = max(timeout, 300 + n_lines // 1200)
         cfg_path = self.path(name + ".cfg")
         tlc.write_cfg(cfg_path, spec="TraceSpec", constants=constants, invariants=invariants,
                       postcondition="TraceAccepted", deadlock=False, overrides=overrides)
@@ -143,6 +180,7 @@ class Ctx:
         """A run recorded from the real code is not a behaviour of the specification: the code has left the
         design on which the property is established. The rejected run (from its RESET record to the first
         unexplained step) is stored next to the replay file so that `check replay` can re-validate it."""
+        trace_path = getattr(self, "_chunk_of", {}).get(trace_path, trace_path)      # the piece in which validation stopped
         m = re.search(r'TRACE REJECTED at record",?\s*(\d+)', where or "") or re.search(r"(\d+)", str((extra or {}).get("at_record", "")))
         with open(trace_path) as f:
             lines = f.read().splitlines()
